@@ -51,6 +51,7 @@ def setup(rep, tier):
     rep.minimum('R13.8', 1)
     rep.minimum('R13.9', 6)
     rep.minimum('R13.10', 3)
+    rep.minimum('R13.11', 1)
 
 
 def base_type(t):
@@ -576,7 +577,39 @@ def r13_10(rep, prog):
     return n
 
 
+# ------------------------------------------------------------------ R13.11
+def r13_11(rep, prog):
+    """24-bit output never overflows: every conversion of a float sample to the 32-bit integer PCM format
+    (the RES2INT24 expansion, i.e. float2int of the scaled sample) clamps its argument to the int32 range first.
+    float2int() of a value beyond +-2^31 is undefined and yields INT32_MIN on x86: with a decoder gain of some
+    +50 dB a loud positive sample comes out as the most negative integer."""
+    n = 0
+    for f in prog.functions_all:
+        if not f.file.startswith('src/') or 'analysis' in f.file:
+            continue
+        for c in f.calls():
+            if sx.callee_name(c) not in ('float2int', 'lrintf', 'lrint'):
+                continue
+            n += 1
+            rep.functions.add(f.name)
+            arg = c[2][0]
+            clamp = any(sx.kind(y) == 'cond' for y in sx.walk(arg)) or any(sx.kind(y) == 'call' and sx.callee_name(y) in ('fminf', 'fmaxf', 'fmin', 'fmax') for y in sx.walk(arg))
+            inst = '%s:%s saturates the float sample before converting it to 32-bit PCM' % (prog.config, f.name)
+            where = '%s:%s' % (f.file, sx.line(c))
+            if clamp:
+                rep.holds('R13.11', inst, where, '`%s`' % sx.show(c)[:80])
+            else:
+                rep.violated('R13.11', inst, where, '`%s` converts an unbounded float: beyond +-256 x full scale (decoder gain, de-mixing) the result is INT32_MIN whatever the sign' % sx.show(c)[:80],
+                             key='%s:float2int-unsaturated' % f.name)
+    if n == 0:
+        if 'FIXED_POINT' in prog.macros or prog.config.startswith('fixed') or prog.config == 'nofloatapi':
+            rep.holds('R13.11', '%s: no float to 32-bit PCM conversion in this configuration' % prog.config, None, 'integer sample path')
+            n = 1
+    return n
+
+
 def check(rep, prog, tier):
+    r13_11(rep, prog)
     r13_10(rep, prog)
     r13_9(rep, prog)
     from . import softclipmem
